@@ -35,6 +35,7 @@ use std::io::{BufRead, BufReader, Write};
 use std::process::{Child, ChildStdin, Command, Stdio};
 use std::sync::mpsc::{channel, Receiver};
 use std::sync::{Mutex, OnceLock};
+#[allow(unused_imports)]
 use std::time::Duration;
 
 // ------------------------------------------------------------------ op model
@@ -839,10 +840,10 @@ fn call_c(release: bool, op_line: &str) -> CRes {
     let c = g.as_mut().unwrap();
     let sent = writeln!(c.stdin, "{}", op_line).and_then(|_| c.stdin.flush());
     if sent.is_ok() {
-        match c.lines.recv_timeout(Duration::from_secs(REF_TIMEOUT)) {
-            Ok(Some(l)) => return CRes::Line(l),
-            Ok(None) => {}
-            Err(_) => {
+        match recv_patient(&c.lines, REF_TIMEOUT) {
+            Some(Some(l)) => return CRes::Line(l),
+            Some(None) => {}
+            None => {
                 let _ = c.child.kill();
                 let _ = c.child.wait();
                 *g = None;
